@@ -11,7 +11,7 @@ for f in ("patch.diff", "demo.diff", "README.md"):
 meta = {
     "property": pid, "name": name, "breaks": pid, "round": int(rnd),
     "needs_to_manifest": needs,
-    "origin": "independent sub-agent given only the property text (plus a round-specific requirement: round 4 - hinge on a boundary, pagination / key order, a cross-contract interaction, leftover state or one account in two roles; round 5 - be hard for a randomised tester: magnitude, exact numeric coincidence, ordering of four or more operations, configuration corner, or error path; round 6 - sit in a query handler or its pagination, shared library code under packages, an instantiate or migrate entry point, or the order / content of returned sub-messages) and a scratch worktree",
+    "origin": "independent sub-agent given only the property text (plus a round-specific requirement: round 4 - hinge on a boundary, pagination / key order, a cross-contract interaction, leftover state or one account in two roles; round 5 - be hard for a randomised tester: magnitude, exact numeric coincidence, ordering of four or more operations, configuration corner, or error path; round 6 - sit in a query handler or its pagination, shared library code under packages, an instantiate or migrate entry point, or the order / content of returned sub-messages; round 8 - an everyday slip: a swallowed error, a rounding direction, two look-alike quantities confused, or read-modify-write ordering) and a scratch worktree",
     "verified": {
         "suite_with_patch": "cargo test --workspace --offline: 142 passed",
         "demo_with_patch": f"cargo test {demo}: fails",
